@@ -1147,8 +1147,10 @@ def providedBy(ob):
         # We might have gotten a descriptor from an instance of a
         # class (like an ExtensionClass) that doesn't support
         # descriptors.  We'll make sure we got one by trying to get
-        # the only attribute, which all specs have.
-        r.extends
+        # the only attribute, which all specs have.  (An instance of our
+        # own base class is taken as is, like the C implementation does.)
+        if SpecificationBase not in type(r).__mro__:
+            r.extends
     except AttributeError:
 
         # The object's class doesn't understand descriptors.
